@@ -27,7 +27,7 @@ def rand_validators(rng, ty):
     if t in INT_KINDS + UINT_KINDS + FLOAT_KINDS:
         cand = ["required", "nonzero", "positive", "min=%d" % rng.below(5), "max=%d" % (3 + rng.below(10)), "min=2, max=9"]
     elif t == "duration":
-        cand = ["nonzero", "positive", "min=1s", "max=1h", "min=2", "required"]
+        cand = ["nonzero", "positive", "min=1s", "max=1h", "min=2", "required", "min=0.5", "max=6.5", "min=1.5", "max=-0.5", "min=0.25, max=7.75"]
     elif t == "string":
         cand = ["required", "nonzero"]
     elif t in ("slice", "map"):
@@ -112,6 +112,8 @@ def good_scalar(rng, t, vtag=""):
         s = rng.pick(["x", "yy", "val"])
         return {"s": s}, S(s)
     if t == "duration":
+        if "max=-0.5" in vtag.replace(" ", ""):
+            return {"dur": str(-2 * 10**9)}, rng.pick([I(-2), S("-2s")])
         secs = 2 + rng.below(5)
         return {"dur": str(secs * 10**9)}, rng.pick([U(secs), S("%ds" % secs)])
     raise ValueError(t)
@@ -173,7 +175,7 @@ def setting_for(rng, ty, depth, fault=None, path=(), vtag=""):
     def inject(kind):
         return fault is not None and fault[0] == kind and "path" not in fault[1] and rng.chance(0.6)
     if t in PRIM_KINDS:
-        gv, gd = good_scalar(rng, t)
+        gv, gd = good_scalar(rng, t, vtag)
         if t not in ("string",):
             if inject("wrong-type") and t != "bool":
                 fault[1]["path"] = ".".join(path); return M([("zz", U(1))])
@@ -230,6 +232,12 @@ def violating(rng, t, vtag):
         if "min=" in v and "min=0" not in v: return I(0)
     if t == "duration":
         if "positive" in v: return I(-5)
+        # bounds given as fractional seconds: values between the bound and its truncation to whole seconds
+        if "min=0.5" in v: return S(rng.pick(["100ms", "499ms", "0s"]))
+        if "min=1.5" in v: return S(rng.pick(["1s", "1400ms", "1.2s"]))
+        if "min=0.25" in v: return S("200ms")
+        if "max=6.5" in v: return S(rng.pick(["6900ms", "6.6s", "7s"]))
+        if "max=-0.5" in v: return S(rng.pick(["-100ms", "-0.4s", "0s"]))
         if "min=1s" in v: return S("1ms")
         if "max=1h" in v: return S("2h")
         if "nonzero" in v or "required" in v: return I(0)
@@ -384,3 +392,68 @@ def replace_at(cfg, path, new):
     if isinstance(cfg, dict) and "a" in cfg:
         return A([replace_at(v, rest, new) if str(i) == head else v for i, v in enumerate(cfg["a"])])
     return cfg
+
+
+# ---------------------------------------------------------------- shrinking support
+
+ALL_T = set(PRIM_KINDS) | {"ptr", "slice", "array", "map", "badmap", "struct", "iface", "regexp", "config", "chan", "func", "complex"}
+
+
+def type_ok(ty):
+    if not isinstance(ty, dict) or ty.get("t") not in ALL_T:
+        return False
+    t = ty["t"]
+    if t in ("ptr", "slice", "map", "badmap", "array"):
+        if t == "array" and not isinstance(ty.get("n"), int):
+            return False
+        return type_ok(ty.get("e"))
+    if t == "struct":
+        fs = ty.get("f")
+        if not isinstance(fs, list):
+            return False
+        names = [f.get("n") for f in fs if isinstance(f, dict)]
+        if len(names) != len(fs) or any(not n or not n[0].isupper() for n in names) or len(set(names)) != len(names):
+            return False
+        return all(isinstance(f.get("tag"), str) and isinstance(f.get("v"), str) and type_ok(f.get("ty")) for f in fs)
+    return True
+
+
+def conforms(ty, v):
+    """does the canonical GoVal JSON v describe a value of type ty (None = zero value)"""
+    if v is None:
+        return True
+    if not isinstance(v, dict) or len(v) != 1:
+        return False
+    t = ty["t"]
+    (k, x), = v.items()
+    if t in INT_KINDS: return k == "i" and isinstance(x, str) and x.lstrip("-").isdigit()
+    if t in UINT_KINDS: return k == "u" and isinstance(x, str) and x.isdigit()
+    if t in FLOAT_KINDS: return k == "f" and isinstance(x, str) and len(x) == 16
+    if t == "bool": return k == "b" and isinstance(x, bool)
+    if t == "string": return k == "s" and isinstance(x, str)
+    if t == "duration": return k == "dur" and isinstance(x, str) and x.lstrip("-").isdigit()
+    if t == "regexp": return k == "re" and isinstance(x, str)
+    if t == "iface": return k == "if"
+    if t == "ptr": return k == "p" and (x is None or conforms(ty["e"], x))
+    if t == "slice": return k == "sl" and (x is None or (isinstance(x, list) and all(e is not None and conforms(ty["e"], e) for e in x)))
+    if t == "array": return k == "ar" and isinstance(x, list) and len(x) == ty["n"] and all(e is not None and conforms(ty["e"], e) for e in x)
+    if t == "map": return k == "mp" and (x is None or (isinstance(x, dict) and all(e is not None and conforms(ty["e"], e) for e in x.values())))
+    if t == "struct": return k == "st" and isinstance(x, list) and len(x) == len(ty["f"]) and all(e is not None and conforms(f["ty"], e) for f, e in zip(ty["f"], x))
+    if t == "config": return k == "cfg"
+    return k == "unsup"
+
+
+def fix_typed_candidate(cand, base):
+    """shrinking must keep a typed case well formed: the type is a type, the pre-filled value is a value of it, and the
+    markers of an injected fault stay what they were"""
+    if cand.get("k") not in ("unpack", "roundtrip"):
+        return cand
+    if not type_ok(cand.get("ty")):
+        return None
+    for key in ("old", "val"):
+        if key in cand and not conforms(cand["ty"], cand[key]):
+            return None
+    for key in ("faultPath", "source", "strictErr", "byPtr", "byValue"):
+        if cand.get(key) != base.get(key):
+            return None
+    return cand
